@@ -927,6 +927,9 @@ void matrixSslDeleteSession(ssl_t *ssl)
         }
 
         psFree(ssl->tls13ClientCipherSuites, ssl->hsPool);
+        /* CertificateVerify signature of a handshake that did not finish */
+        psFree(ssl->sec.tls13CvSig, ssl->hsPool);
+        ssl->sec.tls13CvSig = NULL;
     }
 #endif
 #ifdef REQUIRE_DH_PARAMS
